@@ -257,3 +257,29 @@ Proof.
     { eapply Forall2_names. exact HF. }
     rewrite <- (map_map fdtname new_id), Exs. apply nodup_by_new_id. exact (Hx FCodata Nco name targs xs He).
 Qed.
+
+(* ---------- the final world of a run ---------- *)
+Lemma final_world_types : forall q st1 das cos,
+  collect_types st1 (st_types st1) = COk (das, cos) ->
+  q = mkfcprog (sort_by_name fdaname das) (sort_by_name fcoaname cos) (fcpdefs q) ->
+  forall t, ty_names_ok t = true -> has_inst_p st1 t -> tyd (cdata_of q) (ccodata_of q) (compile_ty t) = true.
+Proof.
+  intros q st1 das cos Hcol Hq t _ Hi. apply declared_tyd.
+  eapply ty_declared_mono; [|apply has_inst_declared; exact Hi].
+  apply perm_names_le. apply Permutation_sym. rewrite Hq. apply decl_names_perm. exact Hcol.
+Qed.
+
+Definition core_frag_prog (p : fprog) : bool := forallb (fun d => core_frag (fdbody d)) (fdefs (fpdecls p)).
+
+Theorem check_gen_tyguard_src_core : forall eager p q,
+  prog_names_ok p = true -> no_cont_decl p = true -> core_frag_prog p = true ->
+  check_gen eager p = COk q -> prog_tyguard_src q = true.
+Proof.
+  intros eager p q Hm Hnc Hf H.
+  destruct (check_gen_run_defs eager p q Hm H) as [st [st1 [das [cos [W [Tb [I0 [Hdefs [I1 [Hcol [Hq Hnm]]]]]]]]]]].
+  unfold prog_tyguard_src. rewrite (check_gen_decls_tyguard eager p q Hm Hnc H). simpl.
+  destruct (check_defs_gen_sigs _ _ _ _ _ Hdefs) as [_ Hsig].
+  eapply (check_defs_gen_ptg _ _ W q (cdata_of q) (ccodata_of q) st1
+            (final_world_types q st1 das cos Hcol Hq) Hsig eager _ st (fcpdefs q) st1 Hf Hnm Tb I0 Hdefs (grows_refl _)).
+  intros d' Hd' Hc. unfold calls_main_prog. apply existsb_exists. exists d'. auto.
+Qed.
